@@ -14,9 +14,11 @@ class Eval:
     """sequential evaluation of a kernel function; loop variables are atoms
     named by the variable; ``state[idx]`` reads become atoms ``state{idx}``"""
 
-    def __init__(self, unit, fn, state=None, ring=P, alias=None):
+    def __init__(self, unit, fn, state=None, ring=P, alias=None, sub_hook=None):
         self.unit, self.fn, self.state, self.ring = unit, fn, state, ring
         self.alias = alias or {}
+        self.sub_hook = sub_hook
+        self.trig = {}
         self.env = {}
         for k, v in unit.module_consts().items():
             self.env[k] = P.const(Fraction(repr(v)))
@@ -29,13 +31,31 @@ class Eval:
     def leaf(self, n):
         if isinstance(n, ast.Call) and isinstance(n.func, ast.Name):
             if n.func.id in TRIG and len(n.args) == 1:
-                return P.sym('%s(%s)' % (n.func.id, self.nf(n.args[0])))
+                name = '%s(%s)' % (n.func.id, self.nf(n.args[0]))
+                if n.func.id in ('sin', 'cos'):
+                    try:
+                        a = from_ast(n.args[0], self.env, self.leaf, ring=self.ring)
+                        if isinstance(a, Rat):
+                            a = a.n * a.d.inv()
+                        name = '%s(%s)' % (n.func.id, nfs(a))
+                        params = {x.arg for x in self.fn.args.args}
+                        # constants such as sin(alpharad) stay opaque; only arguments that vary
+                        # inside the kernel take part in the Fourier normal form
+                        if not a.atoms() <= params:
+                            self.trig[name] = (n.func.id, a)
+                    except (Unsupported, NonMonomialDivision):
+                        pass
+                return P.sym(name)
             if n.func.id == 'float' and len(n.args) == 1:
                 return self.ev(n.args[0])
         if isinstance(n, ast.Subscript) and isinstance(n.value, ast.Name):
             sl = n.slice
             idxs = sl.elts if isinstance(sl, ast.Tuple) else [sl]
             name = n.value.id
+            if self.sub_hook is not None:
+                r = self.sub_hook(name, [self.nf(i) for i in idxs])
+                if r is not None:
+                    return r
             if name == self.state:
                 return P.sym('%s{%s}' % (name, ';'.join(self.nf(i) for i in idxs)))
             nm = '%s[%s]' % (name, ';'.join(self.nf(i) for i in idxs))
@@ -50,7 +70,11 @@ class Eval:
 
     def nf(self, node):
         try:
-            v = from_ast(node, self.env, self.leaf, ring=P)
+            v = from_ast(node, self.env, self.leaf, ring=self.ring)
+            if isinstance(v, Rat):
+                if v.d == P.const(1):
+                    return nfs(v.n)
+                return repr(v).replace(' ', '')
             return nfs(v)
         except (Unsupported, NonMonomialDivision):
             return ast.unparse(node).replace(' ', '')
@@ -151,9 +175,14 @@ def degree(node, env, loads):
         return env.get(node.id, {0})
     if isinstance(node, ast.UnaryOp):
         return degree(node.operand, env, loads)
+    if isinstance(node, ast.IfExp):
+        return degree(node.body, env, loads) | degree(node.orelse, env, loads)
     if isinstance(node, ast.BinOp):
         l = degree(node.left, env, loads)
         r = degree(node.right, env, loads)
+        errs = {x for x in l | r if isinstance(x, str)}
+        if errs:
+            return errs
         if isinstance(node.op, (ast.Add, ast.Sub)):
             return (l | r)
         if isinstance(node.op, ast.Mult):
@@ -168,14 +197,67 @@ def degree(node, env, loads):
         if isinstance(node.op, ast.Pow):
             if isinstance(node.right, ast.Constant) and isinstance(node.right.value, int):
                 return {a * node.right.value if a is not None else None for a in l}
+            if l <= {0} and r <= {0}:
+                return {0}
             return {'power'}
     if isinstance(node, ast.Call):
         ds = set()
         for a in node.args:
             ds |= degree(a, env, loads)
+        if {x for x in ds if isinstance(x, str)}:
+            return {x for x in ds if isinstance(x, str)}
         if ds - {0, None}:
             return {'load inside a function call'}
         return {0}
     if isinstance(node, (ast.Subscript, ast.Attribute)):
         return {0}
     return {'?'}
+
+
+def trig_normal(p, trig):
+    """Fourier normal form: products/powers of sin/cos of known arguments are
+    rewritten as sums of single sin/cos of combined arguments (product-to-sum),
+    with sin(-x) = -sin(x), cos(-x) = cos(x), cos(0) = 1, sin(0) = 0."""
+    out = P()
+    half = Fraction(1, 2)
+    for mono, c in p.t.items():
+        factors, rest = [], []
+        for s_, e in mono:
+            if s_ in trig:
+                if e < 0:
+                    raise NonMonomialDivision('trigonometric factor in a denominator: ' + s_)
+                factors += [trig[s_]] * e
+            else:
+                rest.append((s_, e))
+        terms = [(Fraction(1), None, None)]
+        for kind, arg in factors:
+            new = []
+            for co, k0, a0 in terms:
+                if k0 is None:
+                    new.append((co, kind, arg))
+                elif k0 == 'sin' and kind == 'sin':
+                    new += [(co * half, 'cos', a0 - arg), (-co * half, 'cos', a0 + arg)]
+                elif k0 == 'cos' and kind == 'cos':
+                    new += [(co * half, 'cos', a0 - arg), (co * half, 'cos', a0 + arg)]
+                elif k0 == 'sin' and kind == 'cos':
+                    new += [(co * half, 'sin', a0 + arg), (co * half, 'sin', a0 - arg)]
+                else:
+                    new += [(co * half, 'sin', arg + a0), (co * half, 'sin', arg - a0)]
+            terms = new
+        base0 = P({tuple(rest): c})
+        for co, k, a in terms:
+            base = base0 * P.const(co)
+            if k is None:
+                out = out + base
+                continue
+            if not a.t:
+                if k == 'cos':
+                    out = out + base
+                continue
+            first = sorted(a.t.items())[0][1]
+            if first < 0:
+                a = -a
+                if k == 'sin':
+                    base = -base
+            out = out + base * P.sym('%s(%s)' % (k, nfs(a)))
+    return out
